@@ -141,8 +141,12 @@ def lookupH : Handler := fun inp impl => do
     let v := judge c ians
     let specOK := match v with | .ok => true | _ => false
     let nc := (candidates c).length
+    -- a route without targets must not exist in a built table (`delRoute` sweeps them); such a route ends
+    -- `lookup` for its host at the first path match and so shadows every later candidate
+    let hasEmpty := itab.any (fun kv => kv.2.any (fun pn => pn.2 == 0))
     let tag :=
-      if !specOK then failTag c ians v
+      if hasEmpty then (if specOK then "empty-route-in-table" else "empty-route-shadows-candidate")
+      else if !specOK then failTag c ians v
       else if !globOK then "glob-fragment-model-differs"
       else if !tabOK then "table-differs"
       else if !hostsOK then "host-list-differs"
@@ -153,7 +157,7 @@ def lookupH : Handler := fun inp impl => do
            | none => "-none"
            | some a => if a.1.isEmpty then "-hostless" else if hostClass c a.1 == 1 then "-wildcard" else "-exact") ++
           (if nc ≥ 2 then "-multi" else "")
-    return ({ model := m, agree := tabOK && hostsOK && resOK && globOK, spec := specOK, nontrivial := nc ≥ 2, tag } : Verdict).toJson
+    return ({ model := m, agree := tabOK && hostsOK && resOK && globOK && !hasEmpty, spec := specOK, nontrivial := nc ≥ 2, tag } : Verdict).toJson
 
 /-- `LookupHost`: exact lower-cased key, prefix matcher on "/". Specification: the answer's route is keyed
 by exactly the lower-cased host and its path is a prefix of "/"; if such a route with a target exists the
